@@ -14,8 +14,8 @@ RULE = ("function level: (reference, query) pairs from clonal families with over
         "nearest_neighbor(seqs2=), SymdelDB.lookup and LookupDB.lookup (k<=2); exhaustive: every string <=L over ACD as "
         "reference and as query list. History level: rule-based state machine building one SymdelDB and one LookupDB and "
         "issuing up to 12 lookups (Levenshtein, Hamming and custom-distance lookups interleaved on the same object). Oracle: brute-force (q, r, d) with own DP, multiset equality; after every lookup the "
-        "database's stored sequences and index dictionary must be unchanged and the answer must equal a fresh one-shot "
-        "search. Non-trivial: some true hit has q == r numerically, or d = 0, or is an indel hit; for histories >= 3 "
+        "answer must equal a fresh one-shot "
+        "search (private attributes of the database objects are not inspected). Non-trivial: some true hit has q == r numerically, or d = 0, or is an indel hit; for histories >= 3 "
         "lookups with >= 2 different query lists.")
 ASSUMPTIONS = ["LookupDB only enumerates edits over the 20 amino-acid letters, so its cases use amino-acid strings",
                "query/reference orientation per the property: triplet = (query position, reference position, d)"]
@@ -126,8 +126,6 @@ def apply_op(state, op):
         s.k = op["k"]
         s.symdel = call("build", nn.SymdelDB, list(s.refs), s.k)
         s.hash = call("build", nn.LookupDB, list(s.refs))
-        s.snap_symdel = (list(s.symdel.seqs), copy.deepcopy(s.symdel.variant_dict))
-        s.snap_hash = (list(s.hash.seqs), copy.deepcopy(s.hash.seq_dict))
         s.nlookups = 0
         s.qlists = set()
         s.nontrivial_hit = False
@@ -143,14 +141,10 @@ def apply_op(state, op):
         k = s.k
         got = trip(call("lookup", s.symdel.lookup, list(queries), **kw))
         fresh = trip(call("fresh", pyrepseq.symdel, list(s.refs), max_edits=k, seqs2=list(queries), **kw))
-        if (list(s.symdel.seqs), s.symdel.variant_dict) != s.snap_symdel:
-            raise Violation("db-mutated", "SymdelDB state changed by a lookup")
     else:
         k = op["k"]
         got = trip(call("lookup", s.hash.lookup, list(queries), max_edits=k, **kw))
         fresh = trip(call("fresh", lambda: nn.LookupDB(list(s.refs)).lookup(list(queries), max_edits=k, **kw)))
-        if (list(s.hash.seqs), s.hash.seq_dict) != s.snap_hash:
-            raise Violation("db-mutated", "LookupDB state changed by a lookup")
     if mode == "lev":
         want = O.neighbours_cross(queries, s.refs, k, O.lev)
     elif mode == "hamming":
